@@ -44,9 +44,9 @@ Qed.
 
 (* the storage width the code walker (Codec/Walker.v) assumes is the translated one *)
 Theorem best_fit_is_walker_std_width : forall w, (1 <= w <= 64)%nat ->
-  filter_to_standard_bit_length {| pty_kind := KUInt; pty_bit_length := Z.of_nat w |} = Some (Z.of_nat (std_width w)).
+  filter_to_standard_bit_length (mk_pty KUInt (Z.of_nat w)) = Some (Z.of_nat (std_width w)).
 Proof.
-  intros w Hw. unfold filter_to_standard_bit_length, get_best_fit, std_width. cbn [pty_bit_length].
+  intros w Hw. unfold filter_to_standard_bit_length, get_best_fit, std_width, mk_pty. cbn [pty_bit_length].
   destruct (Nat.leb_spec w 8); destruct (Z.leb_spec (Z.of_nat w) 8); try lia; [reflexivity|].
   destruct (Nat.leb_spec w 16); destruct (Z.leb_spec (Z.of_nat w) 16); try lia; [reflexivity|].
   destruct (Nat.leb_spec w 32); destruct (Z.leb_spec (Z.of_nat w) 32); try lia; [reflexivity|].
@@ -150,6 +150,16 @@ Proof.
   intros tg k t Hreq Hk. destruct (exports_present _ _ Hreq) as [e [r He]]. unfold exported. rewrite He.
   assert (Hg : good_exp k e = true) by (apply (exports_good tg); rewrite He; left; reflexivity).
   destruct Hk as [-> | ->]; cbn [good_exp] in Hg; destruct e as [[]| | |]; try discriminate; reflexivity.
+Qed.
+
+(* ---- emit conditions ---- *)
+Theorem emit_ok_holds : emit_ok = true.
+Proof. vm_compute. reflexivity. Qed.
+
+(* the fixed port id is exported exactly when the type has one -- including the port id 0 *)
+Theorem exported_port_exact : forall tg p, In tg all_targets -> exported_port tg p = Some p.
+Proof.
+  intros tg p Htg. cbn in Htg. destruct Htg as [<-|[<-|[<-|[]]]]; destruct p as [[|q|q]|]; vm_compute; reflexivity.
 Qed.
 
 (* ---- the up-front capacity check ---- *)
